@@ -41,13 +41,13 @@ func (p *Parser) ParseUpdateOperation(request []byte, batch bool) (*model.Operat
 			return nil, err
 		}
 
-		err = p.validateCommitment(signedData.UpdateKey, schema.Delta.UpdateCommitment)
+		err = p.validateCommitment(p.keyAsTransmitted(schema.SignedData, "updateKey", signedData.UpdateKey), schema.Delta.UpdateCommitment)
 		if err != nil {
 			return nil, fmt.Errorf("calculate current commitment: %s", err.Error())
 		}
 	}
 
-	err = hashing.IsValidModelMultihash(signedData.UpdateKey, schema.RevealValue)
+	err = hashing.IsValidModelMultihash(p.keyAsTransmitted(schema.SignedData, "updateKey", signedData.UpdateKey), schema.RevealValue)
 	if err != nil {
 		return nil, fmt.Errorf("canonicalized update public key hash doesn't match reveal value: %s", err.Error())
 	}
